@@ -16,7 +16,9 @@ use std::collections::HashSet;
 #[derive(Clone, Copy, PartialEq, Eq, Debug, Hash)]
 pub enum Step { Set(u8), Get, Op(u8) }
 
-pub const OP_NAMES: [&str; 7] = ["round", "div_rounded", "mul_rounded", "*", "/", "quantize", "format!({:.0})"];
+pub const OP_NAMES: [&str; 11] = ["round", "div_rounded", "mul_rounded", "*", "/", "quantize", "format!({:.0})", "* (product beyond i128)", "/ (scaled dividend beyond i128)", "mul_rounded (product beyond i128)", "div_rounded (scaled dividend beyond i128)"];
+pub const N_KINDS: u8 = 11;
+const BIG_K: i128 = 10_000_000_000_000_000_000_000; // 10^22
 
 /// Probe dividends in tenths: +-2.5, +-1.5, +-2.1, +-2.6, +-10.1, +-0.5, +-0.9
 const PROBES: [i128; 14] = [25, -25, 15, -15, 21, -21, 26, -26, 101, -101, 5, -5, 9, -9];
@@ -38,6 +40,12 @@ fn probe(k: u8) -> Vec<i128> {
         4 => to18(Decimal::new_raw(v, 18) / Decimal::new_raw(10, 0)),
         5 => { let q = Decimal::new_raw(v, 1).quantize(Decimal::new_raw(1, 0)); q.coefficient() / 10i128.pow(q.n_frac_digits() as u32) }
         6 => format!("{:.0}", Decimal::new_raw(v, 1)).parse::<i128>().unwrap(),
+        // the 256-bit paths: x = sign(v)*(10^23 + |v|), so that the result is sign(v)*(10^22 + round(|v|/10)) and
+        // the intermediate (product resp. scaled dividend, ~10^40) exceeds 128 bits
+        7 => (Decimal::new_raw(v.signum() * (10 * BIG_K + v.abs()), 18) * Decimal::new_raw(10i128.pow(17), 18)).coefficient() - v.signum() * BIG_K,
+        8 => to18(Decimal::new_raw(v.signum() * (10 * BIG_K + v.abs()), 0) / Decimal::new_raw(10i128.pow(19), 0)) - v.signum() * BIG_K,
+        9 => Decimal::new_raw(v.signum() * (10 * BIG_K + v.abs()), 18).mul_rounded(Decimal::new_raw(10i128.pow(17), 18), 18).coefficient() - v.signum() * BIG_K,
+        10 => Decimal::new_raw(v.signum() * (10 * BIG_K + v.abs()), 0).div_rounded(Decimal::new_raw(10i128.pow(19), 0), 18).coefficient() - v.signum() * BIG_K,
         _ => unreachable!(),
     }).collect()
 }
@@ -351,7 +359,7 @@ fn lifecycle(_sigs: &[Vec<i128>], l: &mut Local, states: &mut HashSet<Vec<u8>>, 
 
 fn class_name(c: u64) -> String {
     match c >> 8 { 0 => "F0 single thread".to_string(), 1 => format!("F1 two threads x three steps/op {}", OP_NAMES[(c & 255) as usize]), 2 => format!("F2 three threads x two steps/op {}", OP_NAMES[(c & 255) as usize]),
-        3 => format!("F3 lifecycle/op {}", OP_NAMES[(c & 255) as usize]), 4 => format!("F4 three threads x three steps/op {}", OP_NAMES[(c & 255) as usize]), _ => format!("class {}", c) }
+        3 => format!("F3 lifecycle/op {}", OP_NAMES[(c & 255) as usize]), 5 => format!("F5 all scripts/op {}", OP_NAMES[(c & 255) as usize]), 4 => format!("F4 three threads x three steps/op {}", OP_NAMES[(c & 255) as usize]), _ => format!("class {}", c) }
 }
 
 pub fn run(tier: Tier) -> i32 {
@@ -364,7 +372,7 @@ pub fn run(tier: Tier) -> i32 {
     // F0: one thread: every operation kind rounds with the mode set on its own thread (8 modes x 7 kinds)
     run.seq(|l| {
         let mut st = HashSet::new();
-        for m in 0..8u8 { for k in 0..7u8 {
+        for m in 0..8u8 { for k in 0..N_KINDS {
             check_schedule("F0 single thread", &[vec![Step::Set(m), Step::Op(k), Step::Get]], &[0, 0, 0], &sigs, l, &mut st);
             l.distinct += 1;
         }}
@@ -383,11 +391,13 @@ pub fn run(tier: Tier) -> i32 {
     // F1: two threads x three steps: 20 interleavings x 9 template pairs x 64 mode pairs x 7 op kinds
     let il2 = interleavings(&[3, 3]);
     let mut items: Vec<(u8, u8, u8)> = Vec::new();
-    for m1 in 0..8u8 { for m2 in 0..8u8 { for k in 0..7u8 { items.push((m1, m2, k)); } } }
+    for m1 in 0..8u8 { for m2 in 0..8u8 { for k in 0..N_KINDS { items.push((m1, m2, k)); } } }
     // one executor process per worker; each executor runs 2-3 threads at a time
     let w2 = (run.threads / 2).max(1);
     let w3 = (run.threads / 3).max(1);
-    run.par_for_n(w2, &items, || {}, |&(m1, m2, k), l| {
+    // quick: the four wide-path kinds run on half of the mode pairs
+    let items_f1: Vec<(u8, u8, u8)> = if th { items.clone() } else { items.iter().copied().filter(|&(a, b, k)| k < 7 || (a + b) % 2 == 1).collect() };
+    run.par_for_n(w2, &items_f1, || {}, |&(m1, m2, k), l| {
         let mut st = HashSet::new();
         let (t1, t2) = (templates(m1, k), templates(m2, k));
         for a in &t1 { for b in &t2 {
@@ -405,7 +415,8 @@ pub fn run(tier: Tier) -> i32 {
 
     // F2: three threads x two steps: 90 interleavings x 64 mode pairs (third thread never sets) x 7 kinds
     let il3 = interleavings(&[2, 2, 2]);
-    run.par_for_n(w3, &items, || {}, |&(m1, m2, k), l| {
+    let items_f2: Vec<(u8, u8, u8)> = if th { items.clone() } else { items.iter().copied().filter(|&(a, b, k)| (a + b + k) % 2 == 0).collect() };
+    run.par_for_n(w3, &items_f2, || {}, |&(m1, m2, k), l| {
         let mut st = HashSet::new();
         let variants: Vec<Vec<Vec<Step>>> = vec![
             vec![vec![Step::Set(m1), Step::Op(k)], vec![Step::Set(m2), Step::Op(k)], vec![Step::Op(k), Step::Get]],
@@ -431,6 +442,34 @@ pub fn run(tier: Tier) -> i32 {
     });
     run.stage("F3 lifecycle histories", json!({"histories": "set-then-die-then-spawn, set-then-spawn-child (no inheritance), child set vs parent, double set", "mode_pairs": 64, "op_kinds": 7}));
 
+    // F5: ALL scripts of up to three steps over the per-thread alphabet {Set(own mode), Set(RoundHalfEven), Op}
+    // for both threads (27 x 27 script pairs x 20 interleavings): repeated and redundant set_default calls,
+    // set-reset-set sequences, resets while the other thread holds a custom mode
+    let own_pairs: Vec<(u8, u8)> = if th { let mut v = Vec::new(); for a in [0u8, 1, 2, 3, 4, 6, 7] { for b in [0u8, 1, 2, 3, 4, 6, 7] { v.push((a, b)); } } v } else { vec![(7, 3), (3, 7), (7, 7), (0, 1)] };
+    let all_scripts = |own: u8, k: u8| -> Vec<Vec<Step>> {
+        let alpha = [Step::Set(own), Step::Set(5), Step::Op(k)];
+        let mut v = Vec::new();
+        for a in alpha { for b in alpha { for c in alpha { v.push(vec![a, b, c]); } } }
+        v
+    };
+    let mut it5: Vec<(u8, u8, usize)> = Vec::new();
+    for &(a, b) in &own_pairs { for i in 0..27usize { it5.push((a, b, i)); } }
+    run.par_for_n(w2, &it5, || {}, |&(a, b, i), l| {
+        let mut st = HashSet::new();
+        let k = ((a as usize + b as usize + i) % N_KINDS as usize) as u8;
+        let sa = all_scripts(a, k);
+        let sb = all_scripts(b, (k + 3) % N_KINDS);
+        for other in &sb {
+            let scripts = vec![sa[i].clone(), other.clone()];
+            let all_obs = run_batch(&scripts, &il2);
+            for (s, o) in il2.iter().zip(all_obs.iter()) { check_obs("F5 all scripts over {Set(own),Set(HalfEven),Op}", &scripts, s, o, l, &mut st); transitions.fetch_add(s.len() as u64, std::sync::atomic::Ordering::Relaxed); schedules_run.fetch_add(1, std::sync::atomic::Ordering::Relaxed); }
+            l.distinct += il2.len() as u64;
+        }
+        if l.class(5 << 8 | k as u64) { l.sample(5 << 8 | k as u64, json!({"scripts": [sa[i].iter().map(|x| show_step(*x)).collect::<Vec<_>>(), sb[5].iter().map(|x| show_step(*x)).collect::<Vec<_>>()], "schedule": il2[3]})); }
+        all_states.lock().unwrap().extend(st.into_iter().map(|mut v| { v.insert(0, 5); v }));
+    });
+    run.stage("F5 all scripts of three steps over {Set(own), Set(HalfEven), Op}", json!({"script_pairs": 729, "interleavings": il2.len(), "own_mode_pairs": own_pairs.len()}));
+
     // F4 (thorough): three threads x three steps: 1680 interleavings x 8*7*6 mode assignments (op kind rotates)
     if th {
         let il33 = interleavings(&[3, 3, 3]);
@@ -438,8 +477,8 @@ pub fn run(tier: Tier) -> i32 {
         for a in 0..8u8 { for b in 0..8u8 { for c in 0..8u8 { if a != b && b != c && a != c { it4.push((a, b, c)); } } } }
         run.par_for_n(w3, &it4, || {}, |&(a, b, c), l| {
             let mut st = HashSet::new();
-            let k = (a + b + c) % 7;
-            let scripts = vec![vec![Step::Set(a), Step::Op(k), Step::Get], vec![Step::Op(k), Step::Set(b), Step::Op(k)], vec![Step::Set(c), Step::Get, Step::Op((k + 1) % 7)]];
+            let k = (a + b + c) % N_KINDS;
+            let scripts = vec![vec![Step::Set(a), Step::Op(k), Step::Get], vec![Step::Op(k), Step::Set(b), Step::Op(k)], vec![Step::Set(c), Step::Get, Step::Op((k + 1) % N_KINDS)]];
             let all_obs = run_batch(&scripts, &il33);
             for (s, o) in il33.iter().zip(all_obs.iter()) { check_obs("F4 three threads x three steps", &scripts, s, o, l, &mut st); transitions.fetch_add(s.len() as u64, std::sync::atomic::Ordering::Relaxed); schedules_run.fetch_add(1, std::sync::atomic::Ordering::Relaxed); }
             l.distinct += il33.len() as u64;
@@ -462,11 +501,12 @@ pub fn run(tier: Tier) -> i32 {
     run.set_extra("scheduler", json!("own controlled scheduler over real OS threads: one API call per scheduling point, rendezvous channels, fresh threads per schedule"));
 
     let mut required: Vec<Vec<u64>> = Vec::new();
-    for k in 0..7u64 { required.push(vec![1 << 8 | k]); required.push(vec![2 << 8 | k]); required.push(vec![3 << 8 | k]); }
+    for k in 0..(N_KINDS as u64) { required.push(vec![1 << 8 | k]); required.push(vec![2 << 8 | k]); required.push(vec![3 << 8 | k]); }
+    required.push((0..(N_KINDS as u64)).map(|k| 5 << 8 | k).collect());
     finish(Finish {
         run: &run,
         level: "model_checking",
-        rule: "All interleavings (depth-first over program counters, no sampling, no reduction) of: F1 two threads x three steps (20 interleavings) x 9 script-template pairs {set-op-get, op-set-op, get-op-get}^2 x 64 mode pairs x 7 operation kinds (round, div_rounded, mul_rounded, *, /, quantize, Display with precision); F2 three threads x two steps (90 interleavings) x 2 script variants x 64 mode pairs x 7 kinds; F3 lifecycle histories (thread dies then another is spawned; parent with non-default mode spawns child; child sets, parent re-observes; double set) x 64 x 7; thorough: F4 three threads x three steps (1680 interleavings) x 336 mode assignments. Each schedule is executed on fresh OS threads; every Get/Op observation is compared with a per-thread reference model (map thread -> mode, initially RoundHalfEven). An Op observation is a 14-entry probe vector whose value identifies the mode the arithmetic really used. evaluations = schedules executed; states = distinct (family, program counters, model modes).".into(),
+        rule: "All interleavings (depth-first over program counters, no sampling, no reduction) of: F1 two threads x three steps (20 interleavings) x 9 script-template pairs {set-op-get, op-set-op, get-op-get}^2 x 64 mode pairs x 11 operation kinds (round, div_rounded, mul_rounded, *, /, quantize, Display with precision, and *, /, mul_rounded, div_rounded on operands whose intermediate exceeds 128 bits); F2 three threads x two steps (90 interleavings) x 2 script variants x 64 mode pairs x 7 kinds; F5 ALL script pairs of three steps over the per-thread alphabet {Set(own mode), Set(RoundHalfEven), Op} (729 pairs x 20 interleavings x own-mode pairs: repeated, redundant and reset set_default calls); F3 lifecycle histories (thread dies then another is spawned; parent with non-default mode spawns child; child sets, parent re-observes; double set) x 64 x 7; thorough: F4 three threads x three steps (1680 interleavings) x 336 mode assignments. Each schedule is executed on fresh OS threads; every Get/Op observation is compared with a per-thread reference model (map thread -> mode, initially RoundHalfEven). An Op observation is a 14-entry probe vector whose value identifies the mode the arithmetic really used. evaluations = schedules executed; states = distinct (family, program counters, model modes).".into(),
         exhaustive: true,
         assumptions: vec![
             "scheduling points are whole public API calls (there is no lock or atomic inside the library to intercept); instruction-level races inside one call are out of scope (DESIGN §6)".into(),
